@@ -42,7 +42,8 @@ def run(ctx):
     from props.common import import_rules
 
     import_rules(ctx, "C01", {"C01.b"}, "C02.e", "imported from C01 (which threads are `without a local recorder`): the thread-local slot is saved when a scope opens and restored on every path that leaves it, unwinding included — otherwise a thread whose scope has ended keeps dispatching to the stale local recorder instead of the installed global one", floor=6)
-    import_rules(ctx, "C01", {"C01.f"}, "C02.f", "imported from C01 (an `emission` is what the macros expand to): every arm of the emission and describe macros dispatches through with_recorder on every execution (one with_recorder call, not behind a once-guard or a cache) — otherwise a call site first run before the installation never reaches the installed recorder afterwards", floor=60)
+    if ctx.config == "default":  # the expansion witness is compiled against the default build only
+      import_rules(ctx, "C01", {"C01.f"}, "C02.f", "imported from C01 (an `emission` is what the macros expand to): every arm of the emission and describe macros dispatches through with_recorder on every execution (one with_recorder call, not behind a once-guard or a cache) — otherwise a call site first run before the installation never reaches the installed recorder afterwards", floor=60)
     chk.rule("C02.a", "WMC+TBL state machine (set_global_recorder with the cell's helpers spliced in): three pairwise distinct state constants; the only atomic writes to the cell's state are one strong compare_exchange(UNINIT->INITIALIZING) and one publishing write of INITIALIZED that is reachable only if that CAS succeeded; nothing else writes the cell; exactly one static of the cell type, used only by set_global_recorder and with_recorder; with_recorder reads the cell afresh on every emission", floor=7)
     chk.rule("C02.b", "ORD+ATOM publication: the UnsafeCell write happens only after a successful CAS and dominates the publishing write, whose ordering is >= Release; the reader's state load is >= Acquire and its UnsafeCell read is reachable only if the loaded state == INITIALIZED", floor=5)
     chk.rule("C02.c", "OWN hand-back: every SetRecorderError is built from the recorder parameter; Box::leak / forget / into_raw only after a successful CAS; every return passes through the publishing write or through Err(SetRecorderError(recorder)); the parameter is never dropped on a normal path", floor=4)
